@@ -762,11 +762,16 @@ class ISLaSolver:
         :return: A parsed `DerivationTree`.
         """
         grammar = copy.deepcopy(self.grammar)
+        start_symbol = "<start>"
         if nonterminal != "<start>":
-            grammar |= {"<start>": [nonterminal]}
-            grammar = delete_unreachable(grammar)
+            # An auxiliary start symbol; overriding the "<start>" rule would change the
+            # language of grammars in which "<start>" occurs in other rules.
+            start_symbol = "<parse-start>"
+            while start_symbol in grammar:
+                start_symbol = start_symbol[:-1] + "_>"
+            grammar |= {start_symbol: [nonterminal]}
 
-        parser = EarleyParser(grammar)
+        parser = EarleyParser(grammar, start_symbol=start_symbol)
         try:
             parse_tree = next(parser.parse(inp))
             if nonterminal != "<start>":
